@@ -294,7 +294,22 @@ class MPC(Contract):
         c.fact(z3.And(cxy.v * cxy.v <= cxx.v * cyy.v, cxx.v >= 0, cyy.v >= 0), heavy=True)
         c.fact(z3.And(cxx.v >= 0, cyy.v >= 0))
         nz = cxx.v + cyy.v > 0
-        c.oblige("lemma", "MPC in [0,1]", Implies_(nz, And_(Not_(v.nan), v.v >= 0, v.v <= 1)))
+        # staged (the expanded covariance entries make the direct goal slow and load-sensitive): a stand-alone real lemma
+        # over abstract entries, used by substitution at the three covariance entries - on its own proof path, so that
+        # the instance does not burden the other obligations
+        from pyvc import lemmas as L
+
+        def range_lemma():
+            Xa, Ya, Za = z3.Real("Xa"), z3.Real("Ya"), z3.Real("Za")
+            ratio_a = ((Xa - Ya) * (Xa - Ya) + 4 * Za * Za) / ((Xa + Ya) * (Xa + Ya))
+            lem01 = L.universal("Z^2 <= X Y, X, Y >= 0, X + Y > 0  =>  ((X - Y)^2 + 4 Z^2) / (X + Y)^2 in [0,1]", [Xa, Ya, Za],
+                                z3.Implies(z3.And(Za * Za <= Xa * Ya, Xa >= 0, Ya >= 0, Xa + Ya > 0), z3.And(ratio_a >= 0, ratio_a <= 1)))
+            c.fact(z3.And(cxy.v * cxy.v <= cxx.v * cyy.v, cxx.v >= 0, cyy.v >= 0), heavy=True)
+            Xs, Ys, Zs = z3.Real(c.fresh_name("cxx")), z3.Real(c.fresh_name("cyy")), z3.Real(c.fresh_name("cxy"))
+            c.fact(z3.And(Xs == cxx.v, Ys == cyy.v, Zs == cxy.v), heavy=True)
+            lem01(Xs, Ys, Zs)
+            c.oblige("lemma", "MPC in [0,1]", And_(Not_(v.nan), v.v >= 0, v.v <= 1))
+        c.subproof(nz, range_lemma)
         al, be = z3.Real("alpha"), z3.Real("beta")
         # invariance under phi -> (alpha + i beta) phi, in two steps:
         # (A) the covariance entries transform as a quadratic form (polynomial identities over the lazy sums)
@@ -312,8 +327,9 @@ class MPC(Contract):
         tXr = al * al * Xr - 2 * al * be * Zr + be * be * Yr
         tYr = be * be * Xr + 2 * al * be * Zr + al * al * Yr
         tZr = al * be * (Xr - Yr) + (al * al - be * be) * Zr
-        c.oblige("lemma", "MPC ratio invariant under the rotated/scaled quadratic form",
-                 Implies_(And_(Xr + Yr > 0, Or_(al != 0, be != 0)), ratio(tXr, tYr, tZr) == ratio(Xr, Yr, Zr)))
+        # stand-alone (empty context): pure real algebra, no program symbols
+        L.universal("MPC ratio invariant under the rotated/scaled quadratic form", [Xr, Yr, Zr, al, be],
+                    z3.Implies(z3.And(Xr + Yr > 0, z3.Or(al != 0, be != 0)), ratio(tXr, tYr, tZr) == ratio(Xr, Yr, Zr)))
         r = real_vec("r", x.shape[0])
         v3, (rxx, ryy, rxy) = mpc_value(scaled(N.astype(r, "complex"), al, be))
         rr = sym.toF(N.make_sum(r.axes[0], lambda t: sym.mul(r.get(t[0]), r.get(t[0]))))
